@@ -96,8 +96,8 @@
        sentinels (points with first objective on the boundary behind the right sentinel); every processed point is in the
        front or weakly dominated in the first two objectives by a front element; the box list of a front element is a
        chain of boxes whose cell count is the indicator of the cells dominated by that element and by no other processed
-       point; contributions + open box volumes at the current height = exclusive volume below that height (C13_contrib3d_
-       step_invariant).  contrib_spec in dimension 3 = number of exclusively dominated unit cells: C13_contrib_spec_cells.
+       point; contributions + open box volumes at the current height = exclusive volume below that height (lemmas step_neg,
+       step_zero, Inv_step; the loop on any sorted array: C13_contrib3d_sweep).  contrib_spec in dimension 3 = number of exclusively dominated unit cells: C13_contrib_spec_cells.
        Modelled, not verified: -inf of the sentinels is any value below all coordinates; Box::upper.f3 is dead data.
      * the contribution front end HypervolumeContribution with reference point (C13ContribNoref.v: 2 objectives -> 2-D
        algorithm, 3 -> 3-D sweep, otherwise MD): the list of all (contribution, index) entries is a permutation of
@@ -116,9 +116,13 @@
        by the extreme entries; the 2-D code's implicit reference point (first objective of the last sorted point, maximal
        second objective) is the component-wise maximum: C13_noref2d_implicit_reference).
    NOT PROVED, only compared on every run (tools/c13.py, exact integer arithmetic):
-     * HOY, subset selection WITHOUT reference
-       point: differential test of the C++ against hv_spec / contrib_spec (extracted) and against an
-       independent Python monitor.
+     * HypervolumeCalculatorMDHOY (the front end's algorithm for exactly 4 objectives; hence C13_hv_dispatcher_correct,
+       C13_contrib_md_correct, C13_contrib_front_correct and C13_noref_front_correct carry "not 4 objectives, or HOY =
+       hv_spec"): differential test against hv_spec (extracted) and the independent Python monitor, 3-5 objectives, also
+       with negative coordinates and split bounds equal to -1 (stream HOYNEG; the value -1.0 was the code's "no bound yet"
+       sentinel and corrupted the heap until /repo commit 589fd5bd: corpus/C13/hoy_split_bound_minus_one.txt).  A model of
+       HOY needs rational split bounds (medians) and a measure on rational boxes; not attempted.
+     * 2-D subset selection WITHOUT reference point: differential test and monitor only.
      * DC sort for fewer than 2 objectives: the code reads obj[-1] (ndHelperB with k = 0); outside the property's range. *)
 From Coq Require Import List ZArith Permutation Sorted.
 From SharkV Require Import ListAux C13Model C13Proofs C13ProofsFast C13ProofsContrib.
